@@ -166,7 +166,7 @@ theorem routesWf_init (us : List User) : RoutesWf { users := us } :=
   ⟨List.nodup_nil, by simp, by simp [vRoutes], by simp [vRoutes], by simp [vRoutes]⟩
 
 theorem ridsWf_init (us : List User) : RidsWf { users := us } :=
-  ⟨by simp, by decide, by simp [vRoutes], by simp [vRoutes]⟩
+  ⟨by simp, by show (0 : Nat) < 4294967296; omega, by simp [vRoutes], by simp [vRoutes]⟩
 
 theorem routesWf_step (cfg : Config) (s : State) (op : Op) (h : RoutesWf s) : RoutesWf (step cfg s op).1 := by
   obtain ⟨ls, _, hs⟩ := sim_step cfg s op h
